@@ -45,6 +45,7 @@ class Cfg:
     distinct_fill: bool = True
     gradient_bias: int = 2  # a leaf gets a gradient fill with probability 1/(bias+1)
     max_gradients: int = 3
+    micro: bool = True  # allow one micro-scale group (content in huge units under scale(2e-5))
 
 
 def fmt(x: float) -> str:
@@ -439,7 +440,7 @@ def _gen_nested_svg(draw, cx, depth, hook):
 
 def _gen_group(draw, cx, depth, hook):
     g = node("g")
-    micro = cx.cfg.transforms and not cx.cfg.stroke and depth <= 2 and not getattr(cx, "in_micro", False) and draw(st.integers(0, 24)) == 0  # no strokes: a dash pattern in normal units over a path in huge units means millions of dashes
+    micro = cx.cfg.micro and cx.cfg.transforms and not cx.cfg.stroke and depth <= 2 and not getattr(cx, "in_micro", False) and draw(st.integers(0, 24)) == 0  # no strokes: a dash pattern in normal units over a path in huge units means millions of dashes
     saved_box = cx.box
     if micro:
         # artwork in huge units scaled down hard (invertible, |det| ~ 1e-9 and below)
